@@ -274,6 +274,21 @@ def F13t():
     return None
 
 
+def F30():
+    """C07: the network thread reconnects (connection lost under load) and walks `_out_packet` to mark the QoS 0
+    packets as lost while an application thread appends to it: RuntimeError 'deque mutated during iteration'
+    escapes reconnect() and the network thread dies."""
+    from streams.threads import run_scenario
+    lines = ["thr seed=58878 policy=random sw=0.6 msgs=2;2,0;2,1,0 N=20 early=1 proto=5 conn=async drop=1 part=0"] + \
+        [f"thr seed={sd} policy=random sw=0.6 msgs=2;2,0;2,1,0 N=20 early=0 proto=5 conn=async drop=1 part=0" for sd in (228, 246, 589)]
+    for line in lines:
+        o = run_scenario(line)
+        bad = [e for e in o["errors"] if "deque mutated" in e]
+        if bad:
+            return f"{line}: {bad[0]}"
+    return None
+
+
 def F27():
     """C01: a QoS 1 message accepted while disconnected (MQTT_ERR_NO_CONN) is sent and acknowledged after connecting,
     on_publish fires - but its MQTTMessageInfo keeps raising in is_published()/wait_for_publish()."""
@@ -544,7 +559,7 @@ def F18():
 
 
 ALL = {"F1": F1, "F2": F2, "F3": F3, "F4": F4, "F4b": F4b, "F5": F5, "F6": F6, "F7": F7, "F8": F8, "F9": F9,
-       "F10": F10, "F19": F19, "F20": F20, "F21": F21, "F22": F22, "F23": F23, "F24": F24, "F25": F25, "F26": F26, "F29": F29, "F27": F27, "F28": F28, "F11": F11, "F12": F12, "F13": F13, "F13t": F13t, "F15": F15, "F16": F16, "F17": F17, "F18": F18}
+       "F10": F10, "F19": F19, "F20": F20, "F21": F21, "F22": F22, "F23": F23, "F24": F24, "F25": F25, "F26": F26, "F29": F29, "F27": F27, "F28": F28, "F11": F11, "F12": F12, "F13": F13, "F13t": F13t, "F30": F30, "F15": F15, "F16": F16, "F17": F17, "F18": F18}
 
 
 def run(name):
